@@ -124,6 +124,19 @@ func condGuard(c *core.Ctx, fn *ssa.Function, name string, boolFail *bool, pred 
 	return false
 }
 
+// condGuardG is condGuard with a predicate on the whole guard (slice, polarity of the rejecting edge).
+func condGuardG(c *core.Ctx, fn *ssa.Function, name string, boolFail *bool, pred func(g core.CondGuard) bool) bool {
+	key := shortFn(fn) + "?" + name
+	for _, g := range core.CondGuards(fn, boolFail) {
+		if pred(g) && g.GuardsSuccess(boolFail) {
+			c.Check(key, "quantity-guard", true, g.If.Pos(), "condition on %s rejects and dominates every successful exit of %s", name, shortFn(fn))
+			return true
+		}
+	}
+	c.Check(key, "quantity-guard", false, fn.Pos(), "%s has no rejecting test computed from %s that every successful exit depends on", shortFn(fn), name)
+	return false
+}
+
 // condGuardLoop is condGuard for a test inside a loop: the rejecting edge leads only to failures and every iteration of the
 // innermost loop evaluates it.
 func condGuardLoop(c *core.Ctx, fn *ssa.Function, name string, boolFail *bool, pred func(sl map[ssa.Value]bool) bool) bool {
